@@ -387,7 +387,15 @@ fn api_sortdocs_text(text: &str) {
 ///   check_version_compatibility(target) lists nothing  <=>  the serialized text relabelled with the target's schema
 ///   file name loads in strict mode;  the returned mask contains the target exactly then;  set_version(target) succeeds
 ///   exactly then, leaves the content unchanged and the re-serialized file loads strictly.
-fn api_compat(args: &[String]) {
+fn api_compat(args: &[String]) { api_compat_mode(args, false) }
+
+/// api holes <max-docs> : C08 on the same generated documents.  Oracle from the specification tables (not from the loader):
+/// when the element / attribute / value a document was built around is not available in version v (its version mask
+/// lacks v), the document relabelled to v must be rejected by strict loading, lenient loading must warn or fail, and the
+/// two must agree (strict error == first lenient warning).
+fn api_holes(args: &[String]) { api_compat_mode(args, true) }
+
+fn api_compat_mode(args: &[String], holes: bool) {
     use autosar_data::*;
     use autosar_data_specification::{expand_version_mask, CharacterDataSpec, ElementType};
     use std::collections::{HashSet, VecDeque};
@@ -398,13 +406,13 @@ fn api_compat(args: &[String]) {
     let full: u32 = all_versions.iter().fold(0u32, |a, v| a | (*v as u32));
     #[derive(Clone)]
     enum Extra { None, AttrEnum(AttributeName, EnumItem), AttrText(AttributeName), CdataEnum(EnumItem) }
-    struct Cand { path: Vec<(ElementName, ElementType)>, mask: u32, extra: Extra, what: String }
+    struct Cand { path: Vec<(ElementName, ElementType)>, mask: u32, avail: u32, extra: Extra, what: String }
     let mut cands: Vec<Cand> = Vec::new();
     let mut seen: HashSet<ElementType> = HashSet::new();
-    let mut queue: VecDeque<(Vec<(ElementName, ElementType)>, u32)> = VecDeque::new();
-    queue.push_back((vec![(ElementName::Autosar, ElementType::ROOT)], full));
+    let mut queue: VecDeque<(Vec<(ElementName, ElementType)>, u32, u32)> = VecDeque::new();
+    queue.push_back((vec![(ElementName::Autosar, ElementType::ROOT)], full, full));
     seen.insert(ElementType::ROOT);
-    while let Some((path, common)) = queue.pop_front() {
+    while let Some((path, common, navail)) = queue.pop_front() {
         if path.len() > 14 { continue; }
         let t = path.last().unwrap().1;
         for (name, st, mask, _) in t.sub_element_spec_iter() {
@@ -412,8 +420,11 @@ fn api_compat(args: &[String]) {
             if m == 0 { continue; }
             let mut p2 = path.clone();
             p2.push((name, st));
+            // the same name may be listed several times with different masks (and types): availability of the *name*
+            let name_mask = t.sub_element_spec_iter().filter(|(n2, ..)| *n2 == name).fold(0u32, |a, (_, _, m2, _)| a | m2);
+            let navail2 = navail & name_mask;
             if mask & common != common {
-                cands.push(Cand { path: p2.clone(), mask: m, extra: Extra::None, what: format!("element {} exists only in versions {:#x}", name, mask) });
+                cands.push(Cand { path: p2.clone(), mask: m, avail: navail2, extra: Extra::None, what: format!("element {} exists only in versions {:#x}", name, name_mask) });
             }
             if seen.insert(st) {
                 // attributes of the new type
@@ -423,13 +434,13 @@ fn api_compat(args: &[String]) {
                         CharacterDataSpec::Enum { items } => {
                             for (it, im) in items.iter() {
                                 if (im & m & aver) != 0 && (*im & m != m || aver & m != m) {
-                                    cands.push(Cand { path: p2.clone(), mask: m & im & aver, extra: Extra::AttrEnum(aname, *it), what: format!("attribute {}={} exists only in versions {:#x}", aname, it, im & aver) });
+                                    cands.push(Cand { path: p2.clone(), mask: m & im & aver, avail: navail2 & im & aver, extra: Extra::AttrEnum(aname, *it), what: format!("attribute {}={} exists only in versions {:#x}", aname, it, im & aver) });
                                 }
                             }
                         }
                         CharacterDataSpec::String { .. } => {
                             if aver & m != m && aver & m != 0 {
-                                cands.push(Cand { path: p2.clone(), mask: m & aver, extra: Extra::AttrText(aname), what: format!("attribute {} exists only in versions {:#x}", aname, aver) });
+                                cands.push(Cand { path: p2.clone(), mask: m & aver, avail: navail2 & aver, extra: Extra::AttrText(aname), what: format!("attribute {} exists only in versions {:#x}", aname, aver) });
                             }
                         }
                         _ => {}
@@ -438,11 +449,11 @@ fn api_compat(args: &[String]) {
                 if let Some(CharacterDataSpec::Enum { items }) = st.chardata_spec() {
                     for (it, im) in items.iter() {
                         if im & m != 0 && im & m != m {
-                            cands.push(Cand { path: p2.clone(), mask: m & im, extra: Extra::CdataEnum(*it), what: format!("value {} of {} exists only in versions {:#x}", it, name, im) });
+                            cands.push(Cand { path: p2.clone(), mask: m & im, avail: navail2 & im, extra: Extra::CdataEnum(*it), what: format!("value {} of {} exists only in versions {:#x}", it, name, im) });
                         }
                     }
                 }
-                queue.push_back((p2, m));
+                queue.push_back((p2, m, navail2));
             }
         }
     }
@@ -477,6 +488,22 @@ fn api_compat(args: &[String]) {
         // only documents that are valid in their own version take part
         if !matches!(AutosarModel::new().load_buffer(text.as_bytes(), "g.arxml", true), Ok((_, w)) if w.is_empty()) { continue; }
         built += 1;
+        if holes {
+            for v in &all_versions {
+                if c.avail & (*v as u32) != 0 { continue; }
+                let relabelled = text.replace(v0.filename(), v.filename());
+                compared += 1;
+                if let Err(e) = strict_lenient_one(relabelled.as_bytes()) {
+                    println!("FAIL {} [{}; relabelled to {}] :: document {}", e, c.what, v.filename(), hex(relabelled.as_bytes()));
+                    nfail += 1; if !survey { return; } else { continue 'docs; }
+                }
+                if AutosarModel::new().load_buffer(relabelled.as_bytes(), "g.arxml", true).is_ok() {
+                    println!("FAIL strict loading accepts a document whose content is not available in the file's version [{}; relabelled to {}] :: document {}", c.what, v.filename(), hex(relabelled.as_bytes()));
+                    nfail += 1; if !survey { return; } else { continue 'docs; }
+                }
+            }
+            continue;
+        }
         for v in &all_versions {
             let relabelled = text.replace(v0.filename(), v.filename());
             let strict = AutosarModel::new().load_buffer(relabelled.as_bytes(), "g.arxml", true);
@@ -534,6 +561,14 @@ pub fn command(cmd: &str, args: &[String]) {
         }
         "api" if args.get(0).map(|s| s.as_str()) == Some("sort3") => api_sort3(&args[1..]),
         "api" if args.get(0).map(|s| s.as_str()) == Some("compat1") => api_compat1(&args[1..]),
+        "api" if args.get(0).map(|s| s.as_str()) == Some("mustfail1") => {
+            let d = unhex(&args[1]);
+            match autosar_data::AutosarModel::new().load_buffer(&d, "f.arxml", true) {
+                Ok(_) => println!("{{\"outcome\":\"panic\",\"message\":\"strict loading accepts the document\"}}"),
+                Err(e) => println!("{{\"outcome\":\"ok\",\"note\":{:?}}}", e.to_string()),
+            }
+        }
+        "api" if args.get(0).map(|s| s.as_str()) == Some("holes") => api_holes(&args[1..]),
         "api" if args.get(0).map(|s| s.as_str()) == Some("compat") => api_compat(&args[1..]),
         "api" if args.get(0).map(|s| s.as_str()) == Some("sortdocs") => api_sortdocs(&args[1..]),
         "api" if args.get(0).map(|s| s.as_str()) == Some("sortdocs1") => api_sortdocs_text(&args[1]),
